@@ -9,31 +9,8 @@ Layer 3 (sanitized correspondence) is harness/corr/C04.py.  Real memory safety i
 far as the model and the sanitizers reach (pointer formation, aliasing, the compiler's view of UB
 are outside both): level *partial*.
 -/
-import Emboss.Model.View
+import Emboss.Model.Window
 namespace Emboss.View
-
-/-- A `ContiguousBuffer` at pointer level: offset of `bytes_` in the root allocation and `size_`. -/
-structure Window where
-  off : Nat
-  len : Nat
-  deriving DecidableEq, Repr
-
-/-- every byte of the window is inside an allocation of `total` bytes -/
-def Window.valid (w : Window) (total : Nat) : Prop := w.off + w.len ≤ total
-
-/-- `GetOffsetStorage(offset, size)`:
-`{bytes_ + offset, size_ < offset ? 0 : min(size, size_ - offset)}` -/
-def Window.sub (w : Window) (offset size : Nat) : Window :=
-  { off := w.off + offset, len := if w.len < offset then 0 else min size (w.len - offset) }
-
-/-- the indices a full read/write of the window touches (`memcpy`/`memmove` of `size_` bytes,
-`BitBlock::ReadUInt` of `kBits/8 = size_` bytes) -/
-def Window.indices (w : Window) : List Nat := List.range' w.off w.len
-
-/-- Invariant of every storage reachable from a view over an exact-size buffer: either empty
-(then the *pointer* may lie beyond the allocation — formation of such a pointer is outside this
-model) or entirely inside the allocation. -/
-def Window.safe (w : Window) (total : Nat) : Prop := w.len = 0 ∨ w.valid total
 
 theorem Window.sub_safe {w : Window} {total : Nat} (h : w.safe total) (offset size : Nat) :
     (w.sub offset size).safe total := by
@@ -93,18 +70,6 @@ theorem C04_window_is_slice (buf : List Nat) (w : Window) (offset size : Nat) :
 
 /-! ### byte orderers: what `BitBlock<Orderer<buffer>, 8·k>` reads -/
 
-/-- `Orderer::SizeInBytes()`; `NullByteOrderer` answers `Ok() ? 1 : 0` (and `Ok()` only tests the
-pointer), the others answer the buffer's size. -/
-def ordererSize (bo : ByteOrder) (w : Window) : Nat :=
-  match bo with
-  | .null => 1
-  | _ => w.len
-
-/-- indices `BitBlock<…, 8·k>::ReadUInt()` touches once `BitBlock::Ok()`
-(`buffer_.Ok() && buffer_.SizeInBytes() * 8 == kBufferSizeInBits`) holds: `k` bytes from `bytes_`. -/
-def bitBlockReads (bo : ByteOrder) (k : Nat) (w : Window) : List Nat :=
-  if ordererSize bo w = k then List.range' w.off k else []
-
 /-- With the little/big-endian orderers a `BitBlock` that is Ok reads inside the buffer. -/
 theorem C04_bitblock_reads_in_bounds (bo : ByteOrder) (hbo : bo ≠ .null) (k total : Nat) (w : Window)
     (h : w.safe total) : ∀ i ∈ bitBlockReads bo k w, i < total := by
@@ -133,10 +98,6 @@ theorem C04_null_byte_orderer_counterexample :
   exact absurd (h 1 (by decide)) (by decide)
 
 /-! ### virtual-field writes evaluate the inverse transform before any range check -/
-
-/-- `SumOperation::Do<int32_t>`: `none` = signed overflow (undefined behaviour). -/
-def addI32 (a b : Int) : Option Int :=
-  if -2147483648 ≤ a + b ∧ a + b ≤ 2147483647 then some (a + b) else none
 
 /-- Counterexample (finding `ubsan:virtual-field-CouldWriteValue-extreme-argument`, F3 of DESIGN
 §8): for `let v = x - 10` (`x : UInt:8`) the generated `CouldWriteValue(int32_t v)` computes
